@@ -138,6 +138,25 @@ def sym_local(fn, l, depth=0):
     return ('?',)
 
 
+def sym_rv(fn, rv, depth=0):
+    """symbolic value of an rvalue (as sym_local does for the single definition of a temporary)"""
+    k = rv['k']
+    if k == 'use':
+        return sym(fn, rv['op'], depth + 1)
+    if k in ('ref', 'rawptr'):
+        return ('ref', sym_place(fn, rv['place'], depth + 1))
+    if k == 'cast':
+        return ('cast', sym(fn, rv['op'], depth + 1), rv['to'], rv.get('from'))
+    if k == 'binop':
+        a, b = sym(fn, rv['l'], depth + 1), sym(fn, rv['r'], depth + 1)
+        if rv['op'].endswith('WithOverflow'):
+            return ('checked', rv['op'][:-12], a, b, rv['lty'])
+        return ('binop', rv['op'], a, b)
+    if k == 'unop':
+        return ('unop', rv['op'], sym(fn, rv['x'], depth + 1))
+    return ('?',)
+
+
 def unref(v):
     while isinstance(v, tuple) and v and v[0] in ('cast', 'ref', 'deref'):
         v = v[1]
@@ -197,14 +216,16 @@ def guards(fn, block):
     return out
 
 
-def no_redef_between(fn, local, frm, to):
-    """no assignment to `local` can execute after entering block frm and before reaching block to"""
-    reach_from = fn.reachable(frm)
+def no_redef_between(fn, local, frm, to, guard=None):
+    """no assignment to `local` can execute after the guard edge into block frm was taken and before block `to` is reached
+    without the guard being evaluated again (a loop-carried update passes through the guard block, which re-establishes the fact)"""
+    stop = {guard} if guard is not None else set()
+    reach_from = fn.reachable(frm, stop=stop)
     for d in fn.defs().get(local, []):
         b = d[1]
-        if b in reach_from and to in fn.reachable(b):
-            if b == to:
-                continue
+        if b in reach_from and to in fn.reachable(b, stop=stop):
+            if b == to and d[0] == 'call':
+                continue        # the destination of a call is written after the block's terminator
             return False
     return True
 
@@ -235,7 +256,7 @@ def facts_at(fn, block):
         while c[0] == 'unop' and c[1] == 'Not':
             c = c[2]
             tv = not tv
-        if any(not no_redef_between(fn, l, tb, block) for l in mlocals(c)):
+        if any(not no_redef_between(fn, l, tb, block, d) for l in mlocals(c)):
             continue
         if c[0] == 'binop' and c[1] in ('Lt', 'Le', 'Gt', 'Ge', 'Eq', 'Ne'):
             op = c[1]
